@@ -113,6 +113,18 @@ def run(replay=None):
         inputs.append(('expression', 's = ' + sp))
         if i % 4 == 0:
             inputs.append(('property', 'globally: no a {s = %s and t != %s}' % (sp, lits[(i * 7 + 3) % len(lits)])))
+    # every pair of binary operators in both nestings, written with explicit parentheses (what is ill-typed is not judged)
+    BOPS = ['implies', 'iff', 'or', 'and', '=', '!=', '<', '<=', '>', '>=', 'in', '+', '-', '*', '/', '**']
+    for o1 in BOPS:
+        for o2 in BOPS:
+            for atoms in (('x', 'y', 'z'), ('p', 'q', 'r'), ('x', 'y', 'q'), ('p', 'y', 'z'), ('x', 'q', 'r'), ('x', 'y', '{1, 2}'), ('x', '[0 to 3]', 'r')):
+                a, b, c = atoms
+                inputs.append(('expression', '%s %s (%s %s %s)' % (a, o1, b, o2, c)))
+                inputs.append(('expression', '(%s %s %s) %s %s' % (a, o1, b, o2, c)))
+    for u in ('not', '-'):
+        for o in BOPS:
+            for a, b in (('x', 'y'), ('p', 'q'), ('x', 'q')):
+                inputs += [('expression', '%s (%s %s %s)' % (u, a, o, b)), ('expression', '(%s %s) %s %s' % (u, a, o, b)), ('expression', '%s %s (%s %s)' % (a, o, u, b))]
     inputs += EXTRA
     events, info = [], {}
     inputs = [(e, t) for e, t in inputs if keep(t)]
